@@ -51,6 +51,21 @@ def rb(rng, n):
     return bytes(rng.getrandbits(8) for _ in range(n))
 
 
+def post_model(ctx, lines, run_model):
+    """sealed boxes made by the MODEL (scripted ephemeral key) are opened by the implementation and by the model: decrypting the specified output returns the message"""
+    import random
+    rng = random.Random(ctx.seed * 31 + 7)
+    extra = []
+    for n in (0, 1, 16, 33, 100, 257):
+        for (api, op) in (("seal", "seal.open"), ("sealx", "seal.openx")):
+            pk, sk = run_model(["box.seed_keypair %s" % hexs(rb(rng, 32))])[0].split(" ")
+            o = run_model(["rng.gen %s %s %s %s" % (api, hexs(rb(rng, 32)), hexs(rb(rng, n)) if n else "-", pk)])[0].split(" ")
+            if len(o) != 3 or o[1] != "0":
+                raise vcore.BrokenCheck("model did not produce a sealed box: %s" % o[:2])
+            extra.append("%s %s %s %s" % (op, o[2], pk, sk))
+    return lines + extra
+
+
 def gen(ctx, tier, rng):
     L = []
     full = tier == "thorough"
@@ -93,6 +108,13 @@ def gen(ctx, tier, rng):
     for _ in range(40 if not full else 300):
         for v in ("xsalsa", "xchacha"):
             L.append("box.beforenm %s %s %s" % (v, hexs(rb(rng, 32)), hexs(rb(rng, 32))))
+    # box (easy = detached = afternm, checked in the harness) and sealed boxes in both cipher variants: the ephemeral key of a sealed box comes from a scripted
+    # random source, so the whole sealed box is compared with the specification (epk || box(m, BLAKE2b-192(epk || pk), pk, esk)); the model's box is then opened
+    blens = list(range(0, 80)) + [95, 96, 97, 127, 128, 129, 255, 256, 257, 1000] + ([2100, 4097] if full else [])
+    for n in blens:
+        for v in ("xsalsa", "xchacha"):
+            L.append("box.easy %s %s %s %s %s" % (v, hexs(rb(rng, n)) if n else "-", hexs(rb(rng, 24)), hexs(rb(rng, 32)), hexs(rb(rng, 32))))
+            L.append("rng.gen %s %s %s %s" % ("seal" if v == "xsalsa" else "sealx", hexs(rb(rng, 32)), hexs(rb(rng, n)) if n else "-", hexs(rb(rng, 32))))
     for pk in ["00" * 32, "01" + "00" * 31, "e0eb7a7c3b41b8ae1656e3faf19fc46ada098deb9c32b1fd866205165f49b800", "ecffffffffffffffffffffffffffffffffffffffffffffffffffffffffffff7f"]:
         L.append("box.beforenm xsalsa %s %s" % (pk, hexs(rb(rng, 32))))
     return L
